@@ -22,6 +22,8 @@ let phase_of head =
   match Stdlib.Hashtbl.find_opt h "phase" with Some p -> int_of_string p | None -> 0
 let p1 = ref None and p5 = ref None and p3 = ref None and p10 = ref None
 let p4 : (dump * n list) option ref = ref None
+(* the phase-4 dump of a load whose KEEP_STRUCTURE pass was observed (phase 5 seen), kept until the final dump *)
+let merged_d4 : dump option ref = ref None
 let p12 = ref None and p14 = ref None
 let ins_calls = ref 0 and ins_bad = ref []
 let thm_in = ref 0 and thm_fail = ref 0 and thm_noord = ref 0 and thm_nohyp = ref 0
@@ -188,7 +190,7 @@ let () =
                | Some (d4, dm) -> print_endline (if merge_agrees d4 p.pd dm then "merge ok" else "merge DIFF");
                                   (* hypotheses of level_merge_pass_keeps_children_ordered on the tree before the pass *)
                                   print_endline (if merge_hypb d4 then "mergehyp 1" else "mergehyp 0")
-               | None -> ()); p4 := None;
+               | None -> ()); (match !p4 with Some (d4, _) -> merged_d4 := Some d4 | None -> ()); p4 := None;
               p5 := Some p.pd
        | 0 ->
          (if !ins_calls > 0 then (match !ins_bad with
@@ -229,6 +231,7 @@ let () =
           | [] -> print_endline "wf ok"
           | vs -> print_endline ("wf VIOLATION " ^ Stdlib.String.concat " " (Stdlib.List.map (fun (c, i) -> ocaml_of_coq_string c ^ "@" ^ string_of_int (int_of_n i)) vs)));
          (if levels_agree p.pd then print_endline "levels ok"
+          else if (match !merged_d4 with Some d4 -> levels_agree_after_merge d4 p.pd | None -> false) then print_endline "levels ok after-merge"
           else print_endline ("levels DIFF model=" ^ (match model_levels p.pd with Some ls -> show ls | None -> "none") ^ " impl=" ^ show (dump_levels p.pd)));
          (match !p5 with
           | Some d5 -> (match total_memory_diff d5 p.pd with
@@ -246,4 +249,4 @@ let () =
               (if Stdlib.String.length l > 10 && Stdlib.String.sub l 0 10 = "synthdesc " then (synth_desc := Some (Stdlib.String.sub l 10 (Stdlib.String.length l - 10)); synth_obs := []; synth_pending := true)
                else if !synth_pending && Stdlib.String.length l >= 10 && Stdlib.String.sub l 0 10 = "config rc=" then
                  (synth_pending := false; if l <> "config rc=0" then synth_desc := None));   (* hwloc_topology_set_synthetic refused the description *)
-              if l = "new rc=0" then (x86_view := None; x86_obs := []; x86_lines := []; lcpu_view := None; lcpu_obs := []; lcpu_lines := []; synth_desc := None; synth_obs := []; in_find_parent := false; p1 := None; p5 := None; p3 := None; p4 := None; p10 := None; p12 := None; p14 := None; ins_calls := 0; ins_bad := []; mem_calls := 0; mem_bad := []); (if not ((Stdlib.String.length l >= 5 && Stdlib.String.sub l 0 5 = "lcpu ") || (Stdlib.String.length l >= 4 && Stdlib.String.sub l 0 4 = "x86 ")) then print_endline l))
+              if l = "new rc=0" then (x86_view := None; x86_obs := []; x86_lines := []; lcpu_view := None; lcpu_obs := []; lcpu_lines := []; synth_desc := None; synth_obs := []; in_find_parent := false; p1 := None; p5 := None; p3 := None; p4 := None; merged_d4 := None; p10 := None; p12 := None; p14 := None; ins_calls := 0; ins_bad := []; mem_calls := 0; mem_bad := []); (if not ((Stdlib.String.length l >= 5 && Stdlib.String.sub l 0 5 = "lcpu ") || (Stdlib.String.length l >= 4 && Stdlib.String.sub l 0 4 = "x86 ")) then print_endline l))
